@@ -150,6 +150,17 @@ Expect ==
          [X(Ev.t, sq /\ pos, IF sq /\ pos THEN a.c ELSE Scale(a.c, a.d, Ev.f), a.d, a.mut, TRUE, "det")
             EXCEPT !.may = sq /\ ~pos]
     [] op = "Zero" -> LET a == pool[Ev.a] IN X(Ev.t, FALSE, Zero(a.d), a.d, a.mut, TRUE, "det")
+    [] op = "Histogram" -> LET a == pool[Ev.a] IN X(Ev.t, FALSE, Histo(a.c), HistoD(a.d), a.mut, TRUE, "det")
+    [] op = "StackBuild" ->
+         LET cs == [i \in DOMAIN Ev.srcs |-> pool[Ev.srcs[i]].c]
+             d1 == pool[Ev.srcs[1]].d
+         IN X(Ev.t, FALSE, StackBuilt(cs),
+              [k |-> "Stack", q |-> "?", nm |-> "", fid |-> "", form |-> "none", thresholds |-> [i \in 1..(Len(cs) - 1) |-> NaN],
+               value |-> d1, nan |-> [k |-> "Count", tr |-> "id"]], FALSE, TRUE, "det")
+    [] op = "FractionBuild" ->
+         LET a == pool[Ev.a] b == pool[Ev.b] ok == CompatD(a.d, b.d) IN
+         X(Ev.t, ~ok, IF ok THEN FractionBuilt(a.c, b.c) ELSE a.c,
+           [k |-> "Fraction", q |-> "?", nm |-> "", fid |-> "", form |-> "none", value |-> a.d], FALSE, TRUE, "det")
     [] op = "Copy" -> LET a == pool[Ev.a] IN X(Ev.t, FALSE, a.c, a.d, a.mut, TRUE, "det")
     [] op = "Pickle" -> LET a == pool[Ev.a] IN X(Ev.t, FALSE, a.c, a.d, a.mut, TRUE, "det")
     [] op \in {"Reload", "Immutable"} ->
@@ -186,6 +197,7 @@ BagAfter(E) ==
     [] op \in {"Add", "Combine"} -> [bag EXCEPT ![Ev.t] = bag[Ev.a] (+) bag[Ev.b]]
     [] op = "IAdd" -> [bag EXCEPT ![Ev.a] = bag[Ev.a] (+) bag[Ev.b]]
     [] op = "Mul" -> [bag EXCEPT ![Ev.t] = ScaleBag(bag[Ev.a], Ev.f)]
+    [] op \in {"Histogram", "StackBuild", "FractionBuild"} -> [bag EXCEPT ![Ev.t] = EmptyBag]
     [] op \in {"Copy", "Pickle", "Reload", "Immutable"} -> [bag EXCEPT ![Ev.t] = bag[Ev.a]]
     [] op = "Drop" -> [bag EXCEPT ![Ev.s] = EmptyBag]
     [] OTHER -> bag
@@ -245,6 +257,7 @@ Clauses(E) ==
                            r.st = "valid" => DocEq(Ev.redoc, ToDoc(r.c, r.d))
                       [] OTHER -> TRUE,
     sem      |-> \/ ~WantSem \/ ~Ok \/ E.exc \/ ~shapeOK \/ overBudget \/ E.how \in {"pure", "drop"}
+                 \/ Ev.op \in {"Histogram", "StackBuild", "FractionBuild"}
                  \/ IF E.how = "strip" \/ T.strip THEN Strip(ObsC(tgt)) = Strip(Sem(E.d, BagAfter(E)[tgt]))
                     ELSE ObsC(tgt) = Sem(E.d, BagAfter(E)[tgt]) ]
 
